@@ -175,7 +175,8 @@ CHECKS['C16'] = dict(
    text='TLC model-checks Market (transcription of market::update_allotment / adjust_demand / set_active_num_workers and arena::update_request) for every call '
         'sequence of depth 6 (8 thorough) over 3-4 clients on 1-3 priority levels: granted workers sum to min(total demand, limit), nobody gets more than it asked '
         'for, a lower priority level is served only when the higher ones are satisfied, the soft-limit-0 / mandatory rule; and Demand (no demand delta lost on the way '
-        'to the thread server). Seeded random call sequences (3 client configurations) are applied to a real r1::market with real arenas as clients; the requests the '
+        'to the thread server), and Mandatory (the mandatory / worker requests an arena reports when advertise_new_work sets and out_of_work clears its two flags: at quiescence the reported mandatory '
+        'request equals the flag; instantiated with a fact observed on the real arena by a directed schedule - does out_of_work take the request back while task pools are non-empty). Seeded random call sequences (3 client configurations) are applied to a real r1::market with real arenas as clients; the requests the '
         'arenas computed and the allotment vectors are validated by TLC (TraceMarket: the property invariants evaluated on the observed state are the verdict, '
         'disagreement with the transcription is counted as drift). Real task_arenas (11-16 shapes of max_concurrency / reserved slots / external threads / tasks / '
         'enqueues / global_control limit / observer) run with external logical threads and real RML workers as logical threads under seeded random / PCT cooperative '
